@@ -150,7 +150,7 @@ claim("C17", category="model_checking", engine="arraymc",
            "at their recorded sizes must equal the twin's parity byte for byte, recorded sizes must be block multiples not larger than the files, "
            "only the last used split may change size while growing, the C06 oracle (positions read back through the recorded sizes) must hold, and "
            "a limit too small for the data must give a clean refusal that leaves C06 intact. "
-           "Later additions: asymmetric configurations (only one level split, limits computed from the tool's limit formula), every non-empty split of every level lost in turn alone and with a data disk, total length compared with the twin, split file lengths unchanged by a rebuild, per-file limit growing between syncs. A fixed-size split lost and fix run with less room than at sync time (refusal or in-place rebuild, never a shifted mapping). Every fixed-size split loses its last block: check reports exactly that stripe, a plain fix restores it.",
+           "Later additions: asymmetric configurations (only one level split, limits computed from the tool's limit formula), every non-empty split of every level lost in turn alone and with a data disk, total length compared with the twin, split file lengths unchanged by a rebuild, per-file limit growing between syncs. A fixed-size split lost and fix run with less room than at sync time (refusal or in-place rebuild, never a shifted mapping). Every fixed-size split loses its last block: check reports exactly that stripe, a plain fix restores it. Every used split lost and followed by sync (must be refused).",
       note="limits come from the tool's own test seam; <=2 data disks",
       design="3 C17")
 
